@@ -109,6 +109,7 @@ type diskObs struct {
 	Init, InitBits        string
 	Head, Above           string // blkobs of the head block and of the number above it
 	Floor                 string // OldestRetainedBlock
+	AtFloor, BelowFloor   string // blkobs of the oldest retained block and the one below it
 }
 
 func persistedWindows(store db.KeyValueStore) []uint64 {
